@@ -1156,6 +1156,79 @@ theorem map_events {κ ν : Type} [DecidableEq κ] (hash : κ → Nat) (m : XMap
   exact XMap.events_clear m h m' hent
 
 
+
+/-! ## Returned iterators -/
+
+/-- **C20 (return values).** `insert(position, value)` returns the position of the inserted element and
+`erase(first, last)` / `erase(position)` the position following the last removed element — as iterators into
+the vector's *current* buffer — at every fill level, `size == capacity` (where the insertion re-allocates)
+included; the contents are those of `std::vector`. -/
+theorem returned_positions_spec [DecidableEq α] (t t' : TVec α) (r : Option Nat) (hv : t.v.Inv) :
+    (∀ pos x, pos ≤ t.v.items.length → TVec.insertOneRet t pos x = some (t', r) →
+        r = some pos ∧ t'.v.items = t.v.items.take pos ++ [x] ++ t.v.items.drop pos ∧ t'.v.items[pos]? = some x) ∧
+    (∀ first last, first ≤ last → last ≤ t.v.items.length → TVec.eraseRet t first last = some (t', r) →
+        r = some first ∧ t'.v.items = t.v.items.take first ++ t.v.items.drop last ∧
+        t'.v.items[first]? = t.v.items[last]?) := by
+  constructor
+  · intro pos x hp e
+    obtain ⟨hr, hi⟩ := TVec.insertOneRet_spec t t' pos x r e
+    have hproj := TVec.proj_insertN t pos 1 x
+    rw [hi] at hproj
+    obtain ⟨v', e', i', _⟩ := Vec.insertN_refines t.v pos 1 x hv hp
+    rw [e'] at hproj
+    simp only [Option.map_some, Option.some.injEq] at hproj
+    have hitems : t'.v.items = t.v.items.take pos ++ [x] ++ t.v.items.drop pos := by
+      rw [hproj, i']; simp
+    refine ⟨hr, hitems, ?_⟩
+    rw [hitems, List.append_assoc, List.getElem?_append_right (by simp; omega)]
+    simp [List.length_take, Nat.min_eq_left hp]
+  · intro first last h1 h2 e
+    obtain ⟨hr, he⟩ := TVec.eraseRet_spec t t' first last r e
+    have hproj := TVec.proj_erase t first last
+    rw [he] at hproj
+    obtain ⟨v', e', i', _⟩ := Vec.erase_refines t.v first last hv h1 h2
+    rw [e'] at hproj
+    simp only [Option.map_some, Option.some.injEq] at hproj
+    have hitems : t'.v.items = t.v.items.take first ++ t.v.items.drop last := by rw [hproj, i']
+    refine ⟨hr, hitems, ?_⟩
+    rw [hitems, List.getElem?_append_right (by simp; omega)]
+    simp [List.length_take, Nat.min_eq_left (Nat.le_trans h1 h2)]
+
+/-- With the spare-capacity test written as `m_allocation >= m_size` the single-element insert into a full
+vector re-allocates and then returns the caller's old position: an iterator into the released buffer. -/
+theorem vector_insert_return_ge_counterexample :
+    ((TVec.insertOneRetGe (TVec.ofVec (⟨[1], 1⟩ : Vec Nat)) 1 9).map fun r => (r.1.v.items, r.2)) = some ([1, 9], none) ∧
+    ((TVec.insertOneRet (TVec.ofVec (⟨[1], 1⟩ : Vec Nat)) 1 9).map fun r => (r.1.v.items, r.2)) = some ([1, 9], some 1) := by
+  decide
+
+/-- `XalanDOMString::insert(iterator, ch)` / `erase(iterator)`: the returned iterator is the position of the
+inserted unit / the position following the removed one (the string is a `XalanVector` plus a terminator, so
+the vector statement above is what keeps the iterator valid when the exactly-full buffer re-allocates). -/
+theorem domstring_returned_positions (s : DStr) (h : s.Inv) (pos c : Nat) :
+    (pos ≤ s.chars.length → ∃ s', s.insertAt pos c = some (s', pos) ∧ s'.Inv ∧
+        s'.chars = s.chars.take pos ++ [c] ++ s.chars.drop pos) ∧
+    (pos < s.chars.length → ∃ s', s.eraseAtRet pos = some (s', pos) ∧ s'.Inv ∧ s'.chars = s.chars.eraseIdx pos) := by
+  have r := DStr.inv_rep h
+  constructor
+  · intro hp
+    obtain ⟨s', e, r'⟩ := DStr.insertN_rep r pos 1 c hp
+    refine ⟨s', ?_, DStr.rep_inv r', by rw [DStr.rep_chars r']; simp⟩
+    unfold DStr.insertAt
+    unfold DStr.insertN at e
+    by_cases he : s.data.items.length = 0
+    · simp only [he, if_true] at e ⊢
+      have hcs : s.chars = [] := DStr.rep_empty r he
+      have hp0 : pos = 0 := by rw [hcs] at hp; simpa using hp
+      rw [e, hp0]; rfl
+    · simp only [he, if_false] at e ⊢
+      simp only [Vec.insertOne]
+      cases hv : Vec.insertN s.data pos 1 c with
+      | none => simp [hv] at e
+      | some v => simp only [hv, Option.map_some, Option.some.injEq] at e ⊢; rw [← e]
+  · intro hp
+    obtain ⟨s', e, r'⟩ := DStr.eraseAt_rep r pos hp
+    exact ⟨s', by simp [DStr.eraseAtRet, e], DStr.rep_inv r', DStr.rep_chars r'⟩
+
 /-! ## Capacities and growth thresholds -/
 
 /-- **3252d20**: after the `reserve` that `doCreateEntry` performs before it links the entry, the bucket has
